@@ -88,6 +88,7 @@ pub struct Recorder<'a> {
     pub events: usize,
     pub mirror_next: bool,
     pub progress: Option<std::path::PathBuf>,
+    pub last_id: Option<usize>,
 }
 
 impl<'a> Recorder<'a> {
@@ -116,6 +117,9 @@ impl<'a> Recorder<'a> {
             }
         }
         let ret = w.exec(&c);
+        if let crate::exec::Ret::Id(i) = &ret {
+            self.last_id = Some(*i);
+        }
         let after = w.gs.get(c.h).and_then(|x| x.as_ref()).map(|g| g.snap());
         let mut e = w.event(self.tid, &c, &ret, before == after);
         if let Some(d) = direct {
@@ -172,7 +176,7 @@ pub fn run(o: &DriveOpts, out: &mut dyn Write, tid: usize) -> Value {
     }
     w.labels = labels.clone();
     let datas = data_pool();
-    let mut rec = Recorder { out, tid, events: 0, mirror_next: false, progress: o.progress.clone() };
+    let mut rec = Recorder { out, tid, events: 0, mirror_next: false, progress: o.progress.clone(), last_id: None };
     rec.reset(&w);
     let win = o.window.min(o.cap);
     let mut ok = true;
@@ -590,7 +594,7 @@ pub fn run(o: &DriveOpts, out: &mut dyn Write, tid: usize) -> Value {
         }
         if ok && matches!(call, Call::NextId) && rng.gen_bool(0.7) {
             // use the id just handed out (the recorder logged it; read it back from the allocator position)
-            let id = w.g(0).snap().next_v - 1;
+            let Some(id) = rec.last_id else { continue };
             ok = rec.call(&mut w, HCall { h: 0, call: Call::Add { v: id } });
             if ok && twin_alive {
                 rec.mirror_next = true;
